@@ -80,7 +80,10 @@ type C15Case struct {
 	Pretty   bool     `json:"pretty"`
 	Encoding string   `json:"encoding,omitempty"` // "", gzip, deflate
 	FailPos  int      `json:"fail_pos"`           // per-mille of the total output; -1 never
-	Ops      []RespOp `json:"ops"`
+	// Middleware: a route filter built with HttpMiddlewareHandlerToFilter sits between the
+	// trailing container filter and the handler
+	Middleware bool     `json:"middleware,omitempty"`
+	Ops        []RespOp `json:"ops"`
 }
 
 type c15Entity struct {
@@ -101,7 +104,7 @@ func genC15(t *rapid.T) C15Case {
 	c.Encoding = rapid.SampledFrom([]string{"", "", "", "gzip", "deflate"}).Draw(t, "encoding")
 	if rapid.IntRange(0, 3).Draw(t, "hasfirst") > 0 {
 		op := RespOp{Call: rapid.SampledFrom(firstCalls).Draw(t, "first")}
-		op.Status = rapid.SampledFrom([]int{200, 201, 202, 400, 404, 409, 500, 503}).Draw(t, "status")
+		op.Status = rapid.SampledFrom([]int{200, 201, 202, 204, 304, 400, 404, 409, 500, 503}).Draw(t, "status")
 		op.Nil = rapid.IntRange(0, 7).Draw(t, "nilvalue") == 0
 		op.Size = rapid.SampledFrom([]int{0, 1, 5, 40, 300, 5000}).Draw(t, "entitysize")
 		op.CT = rapid.SampledFrom([]string{restful.MIME_JSON, "application/vnd.x+json"}).Draw(t, "ctarg")
@@ -112,6 +115,7 @@ func genC15(t *rapid.T) C15Case {
 	for i := 0; i < nw; i++ {
 		c.Ops = append(c.Ops, RespOp{Call: "Write", Size: rapid.SampledFrom([]int{0, 1, 2, 7, 20, 64, 1000, 70000}).Draw(t, "writesize")})
 	}
+	c.Middleware = rapid.IntRange(0, 3).Draw(t, "middleware") == 0
 	c.FailPos = -1
 	if c.Encoding == "" && rapid.IntRange(0, 2).Draw(t, "fails") > 0 {
 		c.FailPos = rapid.IntRange(0, 1050).Draw(t, "failpos")
@@ -149,6 +153,11 @@ func runC15(c C15Case, failAt int) (cw *countingWriter, obs c15Obs, vs []*Violat
 	rb := ws.GET("/x")
 	if len(c.Produces) > 0 {
 		rb.Produces(c.Produces...)
+	}
+	if c.Middleware {
+		rb.Filter(restful.HttpMiddlewareHandlerToFilter(func(next http.Handler) http.Handler {
+			return http.HandlerFunc(func(w http.ResponseWriter, r *http.Request) { next.ServeHTTP(w, r) })
+		}))
 	}
 	ws.Route(rb.To(func(req *restful.Request, resp *restful.Response) {
 		for i, op := range c.Ops {
